@@ -269,7 +269,7 @@ def correspondence(ctx):
     dis = []
     for c, r, m in zip(cases, impl, model):
         if not agree(c, r, m):
-            dis.append({'case': c if len(c) < 4000 else c[:4000] + '…', 'impl': trunc(r), 'model': trunc(m)})
+            dis.append({'case': c, 'impl': trunc(r), 'model': trunc(m)})
     dist['ops_total'] = n_ops
     dist['model_errors'] = [e[-400:] for e in getattr(ctx, 'model_errors', [])[:2]]
     return {'cases': len(cases), 'disagreements': dis, 'distinct_nontrivial': len({c for c in cases if len(c.split()) > 2}),
